@@ -44,7 +44,16 @@ def respell(s, rng):
 def main():
     out_file, tier, seed = sys.argv[1], sys.argv[2], int(sys.argv[3])
     rng = random.Random(seed)
-    st = MoleculeStandardizer()
+    import logging
+    logging.disable(logging.CRITICAL)
+    from synrbl import Balancer
+    chain = list(Balancer(n_jobs=1).mcs_method.smiles_standardizer)   # the standardizers as the pipeline wires them
+
+    def wired(x):
+        for f in chain:
+            x = f(x)
+        return x
+    standardizers = [("default", MoleculeStandardizer()), ("pipeline", wired)]
     ev = []
     inputs = []
     nresp = 4 if tier == "quick" else 25
@@ -64,39 +73,44 @@ def main():
     inputs += [("multi", x) for x in ("[O-]C=CC(O)O.C=CO", "[O-]C=CCC(O)=CCC(O)=C", "[O-]C=CCC(O)(O)CC(O)=C",
                                       "C=C[O-].C=CO.C=CO", "CC([O-])O.CC(O)O.CC(O)O", "OC=CCC(O)=CCC(O)=C",
                                       "OC(O)CC(O)(O)CC(O)O", "C=C(O)CC(O)(OC)CC(O)=C")]
+    # atoms with an explicit hydrogen count / isotopes at the rewritten positions, metal-bearing oxygens
+    inputs += [("charged", x) for x in ("[13CH2]=CO", "[13CH2]=C(C)O", "C=[13CH]O", "[2H]C([2H])=CO", "CC(O)(O[Na])C", "CC(O)(O[Li])C",
+                                        "CC(O)(O[Mg]Br)C", "C=CO[Na]", "[CH2]=[CH]O", "C=C(O)[SiH3]", "OC(O)[13CH3]",
+                                        "C[13C](O)(O)C", "C=C([18OH])C", "CC([18OH])O")]
     for s in corpus.molecules(limit=300 if tier == "quick" else 6000, rng=rng):
         inputs.append(("corpus", s))
     seen = set()
-    for group, s in inputs:
-        if (group, s) in seen:
-            continue
-        seen.add((group, s))
-        fi = facts(s)
-        if fi is None:
-            continue
-        e = {"ev": "std", "id": len(ev) + 1, "group": group, "smiles": s, "in_comp": fi["comp"], "in_q": fi["q"],
-             "out": "", "raised": "", "out_parses": False, "out_comp": {}, "out_q": 0,
-             "out2": "", "raised2": "", "out2_parses": False, "out2_same": False}
-        try:
-            out = st(s)
-            e["out"] = out if isinstance(out, str) else repr(out)
-        except Exception as ex:
-            e["raised"] = "%s: %s" % (type(ex).__name__, str(ex)[:80])
-        if not e["raised"]:
-            fo = facts(e["out"])
-            if fo is not None:
-                e["out_parses"] = True
-                e["out_comp"], e["out_q"] = fo["comp"], fo["q"]
-                try:
-                    out2 = st(e["out"])
-                    e["out2"] = out2 if isinstance(out2, str) else repr(out2)
-                    f2 = facts(e["out2"])
-                    if f2 is not None:
-                        e["out2_parses"] = True
-                        e["out2_same"] = f2["ident"] == fo["ident"]
-                except Exception as ex:
-                    e["raised2"] = "%s: %s" % (type(ex).__name__, str(ex)[:80])
-        ev.append(e)
+    for via, st in standardizers:
+      for group, s in inputs:
+          if (via, group, s) in seen:
+              continue
+          seen.add((via, group, s))
+          fi = facts(s)
+          if fi is None:
+              continue
+          e = {"ev": "std", "id": len(ev) + 1, "via": via, "group": group, "smiles": s, "in_comp": fi["comp"], "in_q": fi["q"],
+               "out": "", "raised": "", "out_parses": False, "out_comp": {}, "out_q": 0,
+               "out2": "", "raised2": "", "out2_parses": False, "out2_same": False}
+          try:
+              out = st(s)
+              e["out"] = out if isinstance(out, str) else repr(out)
+          except Exception as ex:
+              e["raised"] = "%s: %s" % (type(ex).__name__, str(ex)[:80])
+          if not e["raised"]:
+              fo = facts(e["out"])
+              if fo is not None:
+                  e["out_parses"] = True
+                  e["out_comp"], e["out_q"] = fo["comp"], fo["q"]
+                  try:
+                      out2 = st(e["out"])
+                      e["out2"] = out2 if isinstance(out2, str) else repr(out2)
+                      f2 = facts(e["out2"])
+                      if f2 is not None:
+                          e["out2_parses"] = True
+                          e["out2_same"] = f2["ident"] == fo["ident"]
+                  except Exception as ex:
+                      e["raised2"] = "%s: %s" % (type(ex).__name__, str(ex)[:80])
+          ev.append(e)
     common.write_ndjson(out_file, ev)
     print(json.dumps({"events": len(ev), "changed_by_standardizer": sum(1 for e in ev if e["out_parses"] and e["out"] and
                       facts(e["smiles"])["ident"] != facts(e["out"])["ident"]),
